@@ -490,6 +490,11 @@ func vfC13RunCase(k *vfKit, v *vfC13Viol, wl *vfC13WireLog, p *vfC13Pair, c *vfC
 
 func vfC13JunkSizes(r *rand.Rand, max int) []int {
 	n := r.Intn(max + 1)
+	if max >= 3 && r.Intn(30) == 0 {
+		// a long uninterrupted burst of junk: a reader that gives up after N invalid packets must not
+		// surface anything either (bursts around 64/128/256 and beyond)
+		n = []int{63, 64, 65, 127, 128, 129, 255, 256, 257, 300 + r.Intn(400)}[r.Intn(10)]
+	}
 	s := make([]int, n)
 	for i := range s {
 		s[i] = r.Intn(9) // 0..8
@@ -573,7 +578,7 @@ func TestVerifC13Keys(t *testing.T) {
 			continue
 		}
 		k.Nontrivial(fmt.Sprintf("ok/%s", c.KeyHex))
-		p, err := vfC13NewPair(key.Key, true, 64)
+		p, err := vfC13NewPair(key.Key, true, 1024)
 		if err != nil {
 			k.Eval()
 			v.Add("salamander:valid-key-refused", c, "a %d-byte key was refused: %v", len(key.Key), err)
@@ -602,7 +607,7 @@ func TestVerifC13Roundtrip(t *testing.T) {
 	keys := vfC13Keys(k.Rand("keys"))
 	pairs := make([]*vfC13Pair, len(keys))
 	for i, key := range keys {
-		p, err := vfC13NewPair(key.Key, true, 64)
+		p, err := vfC13NewPair(key.Key, true, 1024)
 		if err != nil {
 			v.Add("salamander:valid-key-refused", map[string]any{"case_id": "rt-setup", "key": hex.EncodeToString(key.Key)}, "a %d-byte key was refused: %v", len(key.Key), err)
 			continue
@@ -680,7 +685,7 @@ func TestVerifC13Interop(t *testing.T) {
 	keys := vfC13Keys(k.Rand("keys"))
 	pairs := make([]*vfC13Pair, len(keys))
 	for i, key := range keys {
-		p, err := vfC13NewPair(key.Key, true, 64)
+		p, err := vfC13NewPair(key.Key, true, 1024)
 		if err != nil {
 			v.Add("salamander:valid-key-refused", map[string]any{"case_id": "io-setup", "key": hex.EncodeToString(key.Key)}, "a %d-byte key was refused: %v", len(key.Key), err)
 			continue
